@@ -183,6 +183,8 @@ PosViolGone(st, asg, qmExp, c) ==
 SeqMin(s) == LET RECURSIVE M(_)
                  M(n) == IF n = 1 THEN s[1] ELSE QmMin(M(n - 1), s[n])
              IN M(Len(s))
+(* the last n elements (all of s when it is shorter: the model may already have parted from a changed code) *)
+LastN(s, n) == IF n >= Len(s) THEN s ELSE SubSeq(s, Len(s) - n + 1, Len(s))
 OldestAttr(attr, c) ==
   LET fs == UNION { {attr[q][i] : i \in 1..Len(attr[q])} : q \in QIds(c) } IN
     IF fs = {} THEN -1 ELSE CHOOSE f \in fs : \A g \in fs : f <= g
@@ -521,7 +523,7 @@ TrEnd ==
          w0file == c.prevW[1]
          attr2 == IF ~executed \/ ~c.crashfree THEN c.attr
                   ELSE CASE call.op = "append" -> [c.attr EXCEPT ![call.q] = @ \o [i \in 1..Len(call.batch) |-> w0file]]
-                         [] call.op = "truncate" -> [c.attr EXCEPT ![call.q] = SubSeq(@, Len(@) - Len(qm2[call.q].recs) + 1, Len(@))]
+                         [] call.op = "truncate" -> [c.attr EXCEPT ![call.q] = LastN(@, Len(qm2[call.q].recs))]
                          [] call.op \in {"create", "delete"} -> [c.attr EXCEPT ![call.q] = <<>>]
                          [] OTHER -> c.attr
          fatal == R.res.k \in {"panic", "io", "err"}
